@@ -27,6 +27,18 @@ const queueN = beacon.CallbackWorkerQueue
 // Deadline after which a call that has not returned is recorded as blocked.
 var Deadline = 2 * time.Second
 
+// anomalies counts the non-blocking scenarios of this run in which something that must happen at
+// once did not happen within the deadline. After a few of them the run is a violation anyway and
+// the remaining scenarios stop waiting the full deadline for such things.
+var anomalies int
+
+func patience() time.Duration {
+	if anomalies >= 3 {
+		return 200 * time.Millisecond
+	}
+	return Deadline
+}
+
 type evKind int
 
 const (
@@ -75,6 +87,7 @@ type consumer struct {
 }
 
 type world struct {
+	short bool // a consumer did not get a job it was due: later waits for such jobs are cut short
 	inner *giveUpStore
 	cbs   beacon.CallbackStore
 	cons  []*consumer
@@ -199,10 +212,17 @@ func (w *world) run(script []event, expectBlock map[int]bool) result {
 		case evRelease:
 			c := w.cons[e.k]
 			if !c.inside {
+				wait := patience()
+				if w.short {
+					wait = 50 * time.Millisecond
+				}
 				select {
 				case <-c.entered:
 					c.inside = true
-				case <-time.After(Deadline):
+				case <-time.After(wait):
+					// the job this release was generated for never reached the consumer: the script is
+					// already off its expected course, do not wait the full deadline again
+					w.short = true
 				}
 			}
 			if c.inside {
@@ -227,7 +247,10 @@ func (w *world) run(script []event, expectBlock map[int]bool) result {
 	// wait until every consumer has logged what the calls that returned must have produced
 	// (this only decides how long to wait; what is recorded is what the consumers really saw)
 	exp := expectedLens(script, res)
-	deadline := time.Now().Add(Deadline)
+	deadline := time.Now().Add(patience())
+	if w.short {
+		deadline = time.Now().Add(100 * time.Millisecond)
+	}
 	for {
 		ok := true
 		for k, c := range w.cons {
@@ -237,7 +260,11 @@ func (w *world) run(script []event, expectBlock map[int]bool) result {
 			}
 			c.mu.Unlock()
 		}
-		if ok || time.Now().After(deadline) {
+		if ok {
+			break
+		}
+		if time.Now().After(deadline) {
+			w.short = true
 			break
 		}
 		time.Sleep(time.Millisecond)
@@ -503,9 +530,14 @@ func Run(outDir string, seed int64, tier string) error {
 			}(i, sc)
 		}
 	}
+	anomalies = 0
 	for i, sc := range scs {
 		if !sc.blocking {
-			outs[i] = outcome{sc, newWorld().run(sc.script, nil)}
+			w := newWorld()
+			outs[i] = outcome{sc, w.run(sc.script, nil)}
+			if w.short {
+				anomalies++
+			}
 		}
 	}
 	wg.Wait()
